@@ -639,6 +639,11 @@ func main() {
 			// order): the history is replayed up to 8 times, one run that does not converge confirms
 			for attempt := 0; attempt < 8; attempt++ {
 				if err := realHelper("replay", map[string]any{"dirs": dirs, "present": present, "histories": [][]fsops.Op{f.h}, "deadline_ms": 3000, "probe": true, "get_only": strings.Contains(f.v.Sig, "GetDevice-only"), "pace_ms": map[bool]int{true: 30, false: 0}[f.eager]}, &ro); err != nil {
+					if strings.Contains(err.Error(), "all goroutines are asleep - deadlock") || strings.Contains(err.Error(), "HUNG") {
+						// the unmodified build does not even get to answer: its calls never return
+						ro.Converged, ro.Detail = []bool{false}, []string{"the unmodified build deadlocks in this history (Go runtime: all goroutines are asleep, or no answer within the watchdog's time)"}
+						break
+					}
 					die(2, "INFRA: real replay failed:", err)
 				}
 				if !ro.Converged[0] {
